@@ -10,6 +10,13 @@
 // the union of the origins of everything ever assigned to it or stored into
 // one of its fields/elements.  It is deliberately conservative: whatever it
 // does not understand becomes OUnknown, which the obligation rejects.
+//
+// This file serves the C04 translator mode only (gen/FromSource_registers.v,
+// Lib/RegFresh.v) and is kept as it is.  Its generalisation to every package —
+// module-aware loading, results/deep/writes/appends/globals per function, callee
+// summaries, models of library functions, the frozen spec/origins.json and the
+// self-checking gen/Origins_Cxx.v — is the -origins mode: origins.go,
+// origins_load.go, origins_ext.go, origins_main.go, coq/Lib/Origins.v.
 package main
 
 import (
